@@ -323,6 +323,22 @@ def run_mutable(job, J):
                     J.v('hand-follows-callers-container', t, ca, f'built from a {mk.__name__}; after the caller\'s {how} of that {mk.__name__} '
                         f'(next cards {"".join(cb)}) the hand is no longer what was built: {why}', mk.__name__)
                     break
+    # the same hands from one-shot iterables of the cards: generator, iterator, map, reversed
+    for a in idxs:
+        ca = items[a][2]
+        ref = T(tuple(J.objs[c] for c in ca))
+        for name, mk in (('generator', lambda cs: (J.objs[c] for c in cs)), ('iterator', lambda cs: iter([J.objs[c] for c in cs])),
+                         ('map', lambda cs: map(J.objs.get, cs)), ('reversed', lambda cs: reversed([J.objs[c] for c in cs][::-1]))):
+            J.evals += 1
+            J.c['hands_built_from_one_shot_iterables'] += 1
+            try:
+                h = T(mk(ca))
+                ok = h == ref and h.entry.index == ref.entry.index and [repr(c) for c in h.cards] == list(ca)
+                why = f'built {h!r}'
+            except Exception as exc:
+                ok, why = False, f'{type(exc).__name__}: {exc}'
+            if not ok:
+                J.v('hand-from-iterable', t, ca, f'given as a {name} of the cards: {why}; as a tuple it is {ref!r}', name)
     return {'type': t, 'cards': ''.join(items[0][2]), 'container': 'list, then overwritten'}
 
 
